@@ -177,7 +177,7 @@ def minimise_pair(case, pa, pb, timeout, budget=160):
     ident = c06.identity_presentation(case)
     # 1. presentation components back to identity
     for p in (pa, pb):
-        for key in ('pad', 'amap', 'S0rot', 'lab_rot', 'fresh',
+        for key in ('pad', 'amap', 'S0rot', 'lab_rot', 'fresh', 'lab_share',
                     'smap', 'S', 'R', 'L', 'ctype'):
             if tests[0] >= budget:
                 break
